@@ -89,9 +89,17 @@ Proof.
 Qed.
 
 (* ------------------------------------------------------------------ offset text *)
-Lemma mk_off_eq : forall neg h m s u, mk_off neg h m s u =
-  Some (Some (if neg then - (((h * 60 + m) * 60 + s) * SEC_US + u) else ((h * 60 + m) * 60 + s) * SEC_US + u)).
-Proof. reflexivity. Qed.
+Lemma mk_off_ok : forall q neg h m s u a, ((h * 60 + m) * 60 + s) * SEC_US + u = a ->
+  0 <= h -> 0 <= m -> 0 <= s -> 0 <= u < SEC_US -> (q = false \/ a = 0 \/ SEC_US <= a) ->
+  mk_off q neg h m s u = Some (Some (if neg then - a else a)).
+Proof.
+  intros q neg h m s u a Ha Hh Hm Hs Hu Hq. unfold mk_off.
+  destruct (q && (h =? 0) && (m =? 0) && (s =? 0)) eqn:E.
+  - repeat rewrite andb_true_iff in E. destruct E as [[[E1 E2] E3] E4].
+    assert (a = 0) as -> by (unfold SEC_US in *; destruct Hq as [Hq|[Hq|Hq]]; [congruence|lia|lia]).
+    destruct neg; reflexivity.
+  - rewrite Ha. reflexivity.
+Qed.
 
 Lemma off_recompose : forall a, 0 <= a ->
   ((a / HOUR_US * 60 + (a / MIN_US) mod 60) * 60 + (a / SEC_US) mod 60) * SEC_US + a mod SEC_US = a.
@@ -100,14 +108,14 @@ Proof. intros a Ha. unfold HOUR_US, MIN_US, SEC_US. dlia. Qed.
 Lemma expect_same : forall c t, expect c (c :: t) = Some t.
 Proof. intros. unfold expect. rewrite Ascii.eqb_refl. reflexivity. Qed.
 
-Lemma parse_off_body_print : forall neg a, 0 <= a < DAY_US ->
-  parse_off_body neg
+Lemma parse_off_body_print : forall q neg a, 0 <= a < DAY_US -> (q = false \/ a = 0 \/ SEC_US <= a) ->
+  parse_off_body q neg
     (pd 2 (a / HOUR_US) (":"%char :: pd 2 ((a / MIN_US) mod 60)
        (if a mod SEC_US =? 0 then (if (a / SEC_US) mod 60 =? 0 then [] else ":"%char :: pd 2 ((a / SEC_US) mod 60) [])
         else ":"%char :: pd 2 ((a / SEC_US) mod 60) ("."%char :: pd 6 (a mod SEC_US) []))))
   = Some (Some (if neg then - a else a)).
 Proof.
-  intros neg a Ha. pose proof (off_recompose a ltac:(lia)) as Hre.
+  intros q neg a Ha Hq. pose proof (off_recompose a ltac:(lia)) as Hre.
   unfold parse_off_body.
   assert (Hh : 0 <= a / HOUR_US < 100) by (unfold HOUR_US, DAY_US in *; dlia).
   assert (Hm : 0 <= (a / MIN_US) mod 60 < 100) by (unfold MIN_US; dlia).
@@ -119,26 +127,26 @@ Proof.
   set (S := (a / SEC_US) mod 60) in *. set (U := a mod SEC_US) in *.
   destruct (U =? 0) eqn:Eu.
   - destruct (S =? 0) eqn:Es.
-    + rewrite mk_off_eq. do 2 f_equal.
-      assert (((H * 60 + M) * 60 + 0) * SEC_US + 0 = a) as -> by (unfold SEC_US in *; lia). reflexivity.
+    + apply mk_off_ok; [unfold SEC_US in *; lia|lia|lia|lia|unfold SEC_US in *; lia|exact Hq].
     + rewrite Ascii.eqb_refl.
-      rewrite pd2 by exact Hs. rewrite mk_off_eq. do 2 f_equal.
-      assert (((H * 60 + M) * 60 + S) * SEC_US + 0 = a) as -> by (unfold SEC_US in *; lia). reflexivity.
+      rewrite pd2 by exact Hs. apply mk_off_ok; [unfold SEC_US in *; lia|lia|lia|lia|unfold SEC_US in *; lia|exact Hq].
   - rewrite Ascii.eqb_refl.
     rewrite pd2 by exact Hs.
     rewrite Ascii.eqb_refl.
-    rewrite pd6 by exact Hu. rewrite mk_off_eq. do 2 f_equal. rewrite Hre. reflexivity.
+    rewrite pd6 by exact Hu. apply mk_off_ok; [unfold SEC_US in *; lia|lia|lia|lia|unfold SEC_US in *; lia|exact Hq].
 Qed.
 
-Lemma parse_off_print : forall o, valid_off o = true -> parse_off (print_off o []) = Some o.
+Lemma parse_off_print : forall q o, valid_off o = true -> off_exact q o = true -> parse_off q (print_off o []) = Some o.
 Proof.
-  intros [z|] Hv; [|reflexivity].
-  unfold valid_off in Hv. unfold print_off.
+  intros q [z|] Hv Hx; [|reflexivity].
+  unfold valid_off in Hv. unfold off_exact in Hx. unfold print_off.
+  assert (Hq : q = false \/ Z.abs z = 0 \/ SEC_US <= Z.abs z).
+  { destruct q; [|left; reflexivity]. right. cbn [negb orb] in Hx. apply orb_true_iff in Hx. lia. }
   destruct (z <? 0) eqn:Ez.
   - unfold parse_off. change (Ascii.eqb "-" "+")%char with false. change (Ascii.eqb "-" "-")%char with true. cbv iota.
-    rewrite parse_off_body_print by lia. do 2 f_equal. lia.
+    rewrite parse_off_body_print by (exact Hq || lia). do 2 f_equal. lia.
   - unfold parse_off. change (Ascii.eqb "+" "+")%char with true. cbv iota.
-    rewrite parse_off_body_print by lia. do 2 f_equal. lia.
+    rewrite parse_off_body_print by (exact Hq || lia). do 2 f_equal. lia.
 Qed.
 
 (* what follows the seconds never starts with '.' unless it is the fraction *)
@@ -157,10 +165,10 @@ Proof.
 Qed.
 
 (* ------------------------------------------------------------------ C13_iso_roundtrip *)
-Lemma iso_parse_print_sep : forall sep d, (sep = "T"%char \/ sep = " "%char) -> valid d ->
-  iso_parse_l (iso_print_sep sep d) = Some d.
+Lemma iso_parse_print_sep : forall q sep d, (sep = "T"%char \/ sep = " "%char) -> valid d ->
+  off_exact q (off d) = true -> iso_parse_l q (iso_print_sep sep d) = Some d.
 Proof.
-  intros sep d Hsep Hv. pose proof (valid_unpack d Hv) as (Hy & Hmo & Hdy & Hh & Hmi & Hs & Hu & Ho).
+  intros q sep d Hsep Hv Hx. pose proof (valid_unpack d Hv) as (Hy & Hmo & Hdy & Hh & Hmi & Hs & Hu & Ho).
   pose proof (days_in_month_le31 (yr d) (mo d)) as Hdim.
   unfold iso_parse_l, iso_print_sep.
   rewrite pd4 by lia. cbn [obind]. rewrite expect_same. cbn [obind].
@@ -172,28 +180,39 @@ Proof.
   rewrite pd2 by lia. cbn [obind]. rewrite expect_same. cbn [obind].
   rewrite pd2 by lia. cbn [obind].
   rewrite parse_frac_print by lia. cbn [obind].
-  rewrite parse_off_print.
-  2:{ unfold valid, validb in Hv. repeat rewrite andb_true_iff in Hv. tauto. }
+  rewrite parse_off_print; [|unfold valid, validb in Hv; repeat rewrite andb_true_iff in Hv; tauto|exact Hx].
   cbn [obind]. destruct d as [y m dd h mn s u o]. cbn [yr mo dy hh mi ss us off] in *.
   unfold valid in Hv. rewrite Hv. reflexivity.
 Qed.
 
-Theorem iso_roundtrip : forall d, valid d -> iso_parse (iso_print d) = Some d.
+Theorem iso_roundtrip_q : forall q d, valid d -> off_exact q (off d) = true -> iso_parse q (iso_print d) = Some d.
 Proof.
-  intros d Hv. unfold iso_parse, iso_print. rewrite list_ascii_of_string_of_list_ascii.
+  intros q d Hv Hx. unfold iso_parse, iso_print. rewrite list_ascii_of_string_of_list_ascii.
   apply iso_parse_print_sep; auto.
 Qed.
 
-Theorem iso_roundtrip_space : forall d, valid d -> iso_parse (iso_print_space d) = Some d.
+Theorem iso_roundtrip : forall d, valid d -> iso_parse false (iso_print d) = Some d.
+Proof. intros d Hv. apply iso_roundtrip_q; [exact Hv|]. unfold off_exact. destruct (off d); reflexivity. Qed.
+
+Theorem iso_roundtrip_space_q : forall q d, valid d -> off_exact q (off d) = true -> iso_parse q (iso_print_space d) = Some d.
 Proof.
-  intros d Hv. unfold iso_parse, iso_print_space. rewrite list_ascii_of_string_of_list_ascii.
+  intros q d Hv Hx. unfold iso_parse, iso_print_space. rewrite list_ascii_of_string_of_list_ascii.
   apply iso_parse_print_sep; auto.
 Qed.
+
+Lemma off_exact_false : forall o, off_exact false o = true.
+Proof. intros [z|]; reflexivity. Qed.
+
+(* with the quirk a sub-second offset is read as UTC: the wall clock survives, the offset (hence the instant) does not *)
+Lemma iso_roundtrip_quirk_refuted :
+  let d := mkdt 2000 1 1 0 0 0 0 (Some (-1)) in
+  valid d /\ iso_parse true (iso_print d) = Some (mkdt 2000 1 1 0 0 0 0 (Some 0)) /\ iso_parse false (iso_print d) = Some d.
+Proof. cbv zeta. repeat split. Qed.
 
 (* whatever the parser accepts is a valid value *)
-Theorem iso_parse_valid : forall s d, iso_parse s = Some d -> valid d.
+Theorem iso_parse_valid : forall q s d, iso_parse q s = Some d -> valid d.
 Proof.
-  intros s d. unfold iso_parse, iso_parse_l, obind.
+  intros q s d. unfold iso_parse, iso_parse_l, obind.
   repeat (match goal with
           | |- match ?x with _ => _ end = _ -> _ => destruct x eqn:?; try discriminate
           | |- (let '(_, _) := ?x in _) = _ -> _ => destruct x eqn:?
@@ -527,28 +546,29 @@ Proof. intros d H. unfold dt_of_fields. unfold valid in H. rewrite H. reflexivit
 Lemma dt_of_epoch_in_range : forall n, MIN_MICROS <= n <= MAX_MICROS -> dt_of_epoch n = Some (from_micros_utc n).
 Proof. intros n H. unfold dt_of_epoch. pose proof (from_micros_valid n H) as Hv. unfold valid in Hv. rewrite Hv. reflexivity. Qed.
 
-Theorem dt_new_aware : forall keep i d, dt_new keep i = Some d -> off d <> None.
+Theorem dt_new_aware : forall q keep i d, dt_new q keep i = Some d -> off d <> None.
 Proof.
-  intros keep i d. destruct i as [x o0|s|n]; cbn [dt_new].
+  intros q keep i d. destruct i as [x o0|s|n]; cbn [dt_new].
   - unfold dt_of_fields. destruct (validb (obj_rebuild keep x o0)); [|discriminate]. intros H. injection H as <-. apply coerce_off.
-  - destruct (iso_parse s); [|discriminate]. cbn. intros H. injection H as <-. apply coerce_off.
+  - destruct (iso_parse q s); [|discriminate]. cbn. intros H. injection H as <-. apply coerce_off.
   - unfold dt_of_epoch. destruct (validb (from_micros_utc n)); [|discriminate]. intros H. injection H as <-.
     pose proof (from_micros_fields n) as (_ & _ & Ho). congruence.
 Qed.
 
-Theorem dt_new_obj : forall x o0, valid x -> dt_new true (InObj x o0) = Some (coerce x).
-Proof. intros x o0 H. cbn [dt_new obj_rebuild]. apply dt_of_fields_valid. exact H. Qed.
+Theorem dt_new_obj : forall q x o0, valid x -> dt_new q true (InObj x o0) = Some (coerce x).
+Proof. intros q x o0 H. cbn [dt_new obj_rebuild]. apply dt_of_fields_valid. exact H. Qed.
 
-Theorem dt_new_text : forall keep d, valid d -> dt_new keep (InText (iso_print d)) = Some (coerce d).
-Proof. intros keep d H. cbn [dt_new]. rewrite iso_roundtrip by exact H. reflexivity. Qed.
+Theorem dt_new_text : forall q keep d, valid d -> off_exact q (off d) = true ->
+  dt_new q keep (InText (iso_print d)) = Some (coerce d).
+Proof. intros q keep d H Hx. cbn [dt_new]. rewrite iso_roundtrip_q by assumption. reflexivity. Qed.
 
-Theorem dt_new_epoch : forall keep n, MIN_MICROS <= n <= MAX_MICROS ->
-  dt_new keep (InEpochMicros n) = Some (from_micros_utc n).
-Proof. intros keep n H. cbn [dt_new]. apply dt_of_epoch_in_range. exact H. Qed.
+Theorem dt_new_epoch : forall q keep n, MIN_MICROS <= n <= MAX_MICROS ->
+  dt_new q keep (InEpochMicros n) = Some (from_micros_utc n).
+Proof. intros q keep n H. cbn [dt_new]. apply dt_of_epoch_in_range. exact H. Qed.
 
 (* ------------------------------------------------------------------ storage formats *)
-Lemma text_roundtrip : forall d, valid d -> aware d -> text_decode (iso_print d) = Some d.
-Proof. intros d Hv Ha. unfold text_decode. rewrite iso_roundtrip by exact Hv. cbn. rewrite coerce_aware by exact Ha. reflexivity. Qed.
+Lemma text_roundtrip : forall q d, valid d -> aware d -> off_exact q (off d) = true -> text_decode q (iso_print d) = Some d.
+Proof. intros q d Hv Ha Hx. unfold text_decode. rewrite iso_roundtrip_q by assumption. cbn. rewrite coerce_aware by exact Ha. reflexivity. Qed.
 
 Theorem tuple_roundtrip : forall d, valid d -> off d = Some 0 -> unpack_tuple (pack_tuple d) = Some d.
 Proof.
@@ -567,10 +587,10 @@ Proof.
   - destruct d as [y m dd h mn s u o]. cbn in *. subst o. exact Hv.
 Qed.
 
-Theorem stream_roundtrip : forall r k d, rule_safe r = true -> valid d -> aware d -> kind_ok k d ->
-  stream_decode (stream_encode r k d) = Some d.
+Theorem stream_roundtrip : forall q r k d, rule_safe r = true -> valid d -> aware d -> kind_ok k d ->
+  off_exact q (off d) = true -> stream_decode q (stream_encode r k d) = Some d.
 Proof.
-  intros r k d Hs Hv Ha Hk. unfold stream_encode, encode_form.
+  intros q r k d Hs Hv Ha Hk Hx. unfold stream_encode, encode_form.
   destruct (chosen_form r k) eqn:Ef.
   - destruct k; cbn [kind_ok] in Hk.
     + unfold aware in Ha. congruence.
@@ -579,9 +599,24 @@ Proof.
   - cbn [stream_decode]. apply text_roundtrip; assumption.
 Qed.
 
-Theorem text_format_roundtrip : forall f d, f = FormIsoText -> valid d -> aware d ->
-  obind (text_encode f d) text_wire_decode = Some d.
-Proof. intros f d -> Hv Ha. cbn. apply text_roundtrip; assumption. Qed.
+Theorem text_format_roundtrip : forall q f d, f = FormIsoText -> valid d -> aware d -> off_exact q (off d) = true ->
+  obind (text_encode f d) (text_wire_decode q) = Some d.
+Proof. intros q f d -> Hv Ha Hx. cbn. apply text_roundtrip; assumption. Qed.
+
+(* the quirk through the storage formats: a value whose offset is -1 microsecond comes back as UTC, one microsecond off *)
+Lemma formats_quirk_refuted : forall r, rule_safe r = true ->
+  let d := mkdt 2000 1 1 0 0 0 0 (Some (-1)) in
+  let d' := mkdt 2000 1 1 0 0 0 0 (Some 0) in
+  valid d /\ aware d /\ kind_ok KOther d
+  /\ stream_decode true (stream_encode r KOther d) = Some d'
+  /\ obind (text_encode FormIsoText d) (text_wire_decode true) = Some d'
+  /\ to_micros d' <> to_micros d.
+Proof.
+  intros r Hr. cbv zeta. split; [reflexivity|]. split; [unfold aware; cbn; discriminate|].
+  split; [cbn; discriminate|]. split.
+  - unfold stream_encode. unfold rule_safe in Hr. destruct (chosen_form r KOther); [discriminate|]. reflexivity.
+  - split; [reflexivity|]. vm_compute. discriminate.
+Qed.
 
 Lemma in_utc_range_bounds : forall d, in_utc_range d = true -> MIN_MICROS <= to_micros d <= MAX_MICROS.
 Proof. intros d H. unfold in_utc_range in H. rewrite andb_true_iff in H. lia. Qed.
@@ -651,11 +686,11 @@ Proof.
 Qed.
 
 (* without `fold` the object branch changes the offset of a fold=1 value: the fact is needed *)
-Lemma fold_dropped_changes_offset :
+Lemma fold_dropped_changes_offset : forall q,
   let x := mkdt 2021 10 31 2 30 0 0 (Some 3600000000) in
-  valid x /\ aware x /\ dt_new false (InObj x (Some 7200000000)) <> Some x
-  /\ dt_new true (InObj x (Some 7200000000)) = Some x.
+  valid x /\ aware x /\ dt_new q false (InObj x (Some 7200000000)) <> Some x
+  /\ dt_new q true (InObj x (Some 7200000000)) = Some x.
 Proof.
-  cbv zeta. split; [reflexivity|]. split; [unfold aware; cbn; discriminate|].
+  intros q. cbv zeta. split; [reflexivity|]. split; [unfold aware; cbn; discriminate|].
   split; [vm_compute; discriminate|reflexivity].
 Qed.
